@@ -64,6 +64,24 @@ def run(ck, F, E):
                 e = rw.rv_expr(rv)
                 st = e[0] == "agg" and e[2] == "AwaitingInput"
         ck.require(st, "C08:REWIND:state", "only INPUT rewinds", "state := AwaitingInput", "the rewind no longer reports AwaitingInput", rw.span)
+    rb = get_fn(ck, F, "Program::rewind_before_token")
+    if rb is not None:
+        loops = rb.natural_loops()
+        dec = False
+        for h, blk in loops.items():
+            subs = [st for b in blk for st in rb.blocks[b]["stmts"] if st["k"] == "assign" and st["rv"]["k"] == "binop"
+                    and st["rv"]["op"] == "SubWithOverflow" and "token_index" in show(rb.rv_expr(st["rv"]))]
+            cmpc = [c for c in rb.calls() if c.bb in blk and (c.callee.endswith("::eq") or c.callee.endswith("::ne"))
+                    and "peek_next_token" in " ".join(show(rb.expr(a)) for a in c.args)]
+            if subs and cmpc:
+                dec = True
+        backward_api = [c.callee.split("::")[-1] for c in rb.calls() if c.callee.split("::")[-1] in ("rposition", "rfind", "rev", "next_back")]
+        forward_api = [c.callee.split("::")[-1] for c in rb.calls() if c.callee.split("::")[-1] in ("position", "find", "find_map", "iter")
+                       and not backward_api]
+        ck.require((dec or backward_api) and not forward_api, "C08:REWIND:nearest-before-cursor", "only INPUT rewinds",
+                   "the search walks back from the cursor (token_index -= 1 per step) to the nearest matching token",
+                   "rewind_before_token no longer searches backwards from the cursor (%s): with two INPUTs on a line the second one "
+                   "resumes at the first" % (forward_api or "no decreasing loop"), rb.span)
     disp = tables.dispatch_table(F, "StatementEvaluator::evaluate_statement")
     cs3 = sorted({b.path for b, _ in callers_of(F, "StatementEvaluator::evaluate_input_statement")})
     ck.require(disp is not None and disp.get("Input", {}).get("effect") == "evaluate_input_statement" and
